@@ -199,6 +199,8 @@ class Replay:
                     view.update([(k, x)])
             elif op == 'mdel':
                 del view[host.value(host.views[vname][1][0], args['k'])]
+            elif op == 'mpopitem':
+                result = view.popitem()
             elif op == 'mpop':
                 result = view.pop(host.value(host.views[vname][1][0], args['k']))
             elif op == 'edit':
@@ -282,6 +284,8 @@ class Replay:
         ok = True
         want_exc = ev['exc']
         got_exc = type(exc).__name__ if exc is not None else ''
+        if want_exc == 'ANY' and got_exc:
+            got_exc = 'ANY'
         if want_exc != got_exc:
             if {'exc'} & self.check:
                 self.add(step, 'exc', f'expected {want_exc or "no exception"}, got {got_exc or "no exception"}'
@@ -619,6 +623,26 @@ class Replay:
             self.add(step, 'reparse', f'{type(e).__name__}: {e}')
 
     # ------------------------------------------------------------------
+    def _popitem_branch(self, step: int, ev: dict, exc: Optional[BaseException], result: Any) -> Optional[set]:
+        """Which of RepList!MPopItem's modes describe what popitem() just did: {'refused'} when it raised,
+        the subset of {'first', 'last'} naming the one item that left the view (its key returned) otherwise; None when the result names neither
+        (every mode's post-state is then compared and must disagree)."""
+        if exc is not None:
+            return {'refused'}
+        prev = self.beh[step - 1]['views'][ev['view']]
+        if not prev or not isinstance(result, tuple) or len(result) != 2:
+            return None
+        try:
+            now = {id(o) for o in self.host.view(self.parent, ev['view'])}
+        except Exception:  # noqa: BLE001
+            return None
+        gone = [sid for sid in prev if id(self.objs.get(sid)) not in now]
+        out = set()
+        for mode, sid in (('first', prev[0]), ('last', prev[-1])):
+            if gone == [sid] and getattr(self.objs.get(sid), 'key', object()) == result[0]:
+                out.add(mode)
+        return out or None
+
     def run(self) -> list[tuple[int, str, str, str]]:
         if any(ev['op'] in self.host.skip_ops for ev in self.beh[1:]):
             return []
@@ -646,6 +670,11 @@ class Replay:
                     tgt = ev['new'][0][0] if ev['new'] else None
                 if tgt is not None:
                     self.payload[tgt] = ev['args']['nv']
+            if ev['op'] == 'mpopitem':
+                # the specification admits three outcomes; follow the one the code took
+                took = self._popitem_branch(step, ev, exc, result)
+                if took is not None and ev['args']['mode'] not in took:
+                    return self.findings
             self.steps_done += 1
             if not self.compare(step, ev, exc, result, snap):
                 break
